@@ -521,6 +521,16 @@ func (ip *Interp) JoinVal(a, b Val) Val {
 			if x.K == TriTop && y.K == TriTop && x.Key != "" && x.Key == y.Key && x.Neg == y.Neg {
 				return x
 			}
+			// true on one side and false on the other of a named branch: the result
+			// is that branch's condition itself (or its negation)
+			if ip.gateExact && x.K != TriTop && y.K != TriTop && x.K != y.K {
+				if g := ip.In.Conds[ip.gate]; g != nil {
+					r := *g
+					r.K = TriTop
+					r.Neg = (x.K == TriF) != ip.gateSwap
+					return &r
+				}
+			}
 			return &Bool{K: TriTop}
 		}
 	case *Ptr:
